@@ -13,6 +13,50 @@ ALL = [f"C{i:02d}" for i in range(1, 21)]
 BASELINE = ("cd /repo && /venv/bin/python -m pytest -ra -q -p no:cacheprovider --timeout=900 "
             "--continue-on-collection-errors --junitxml=/tmp/pyvolutionary-baseline.junit.xml")
 
+
+ENTRIES = {
+ "C01": ("Exploration: one Hypothesis campaign per exported optimizer over generated tasks of every encoding, configurations at/above documented scale, seeds and modes; every reported agent is tested with a membership predicate written from the declarations. Right level because the claim ranges over an unbounded run space with a cheap exact oracle; no absence claim.",
+         "property-based testing: generated runs + membership oracle over every reported agent"),
+ "C02": ("Exploration: generated runs whose objective is harness-owned; the checker re-evaluates every reported agent's cost from the position and from transform_solution(position) and recomputes the documented fitness. An independent ground truth exists for every agent, so sampling runs is the deciding step.",
+         "property-based testing: differential oracle (checker's own objective evaluation) on generated runs"),
+ "C03": ("Exploration: generated runs weighted to ties, max tasks and pool modes; validity predicate on best_solution vs the last generation (any tie-break accepted).",
+         "property-based testing: validity predicate on generated runs"),
+ "C04": ("Exploration with an exhaustively enumerated core: a scripted optimizer drives the library's own optimize() loop through every rate history up to length 4 (quick) / 6 (thorough) over a dyadic alphabet x all small configurations and is compared with an independent reference of the stop rule (exhaustive: true for that bound); plus random histories and observational checks of real runs of all optimizers.",
+         "model-based testing: scripted optimizer vs reference stop rule (exhaustive small histories + Hypothesis) and observational oracle on real runs"),
+ "C05": ("Exploration: the harness' instrumented objective applies the membership predicate to every argument it receives during generated runs (raising inside worker processes), so discarded candidates are covered too.",
+         "property-based testing: instrumented objective records every call on generated runs"),
+ "C06": ("Exploration: strict side keys every exception out of optimize() on generated valid continuous tasks by (optimizer, type, function) and compares with the committed open findings; per-pair side tests 'works today' pairs wholesale; invalid side generates invalid calls and requires ValueError with zero cycles executed.",
+         "property-based testing / robustness fuzzing with exception bucketing and a known-findings list"),
+ "C07": ("Exploration: metamorphic pairs of equal seeded runs under different ambient RNG state, one in three across interpreters with another PYTHONHASHSEED; exact equality of whole results.",
+         "property-based testing: metamorphic relation (same seed => identical result), cross-process"),
+ "C08": ("Exploration over call histories: Hypothesis RuleBasedStateMachine (optimize / set_config_parameters rules on one instance) compared after every run with a fresh instance; failing histories shrink as one value and are their own replay file.",
+         "stateful (model-based) property testing: reused instance vs fresh instance"),
+ "C09": ("Exploration: deep structural snapshots of the caller's config and task before/after generated calls, including calls that raise and pool modes.",
+         "property-based testing: before/after snapshot invariant"),
+ "C10": ("Exploration: generated runs with 1x..3x populations plus offsets that no group count divides, all modes; size invariant over every generation.",
+         "property-based testing: invariant over every recorded generation"),
+ "C11": ("Exploration of schedules: the pool and as_completed seen by the library are replaced by a lazy executor whose completion order (and time-outs) are drawn by Hypothesis, with a multiset hand-off oracle; real thread/process pools with injected delays and stragglers; distinct-initial-points oracle. Interleavings of real pools are sampled, not enumerated.",
+         "schedule-controlled property testing (harness-owned executor) + delay-injected real pools"),
+ "C12": ("Exploration: metamorphic pairs run(max, f) / run(min, -f) with equal seeds for every optimizer outside the committed direction-reader list; positions equal and costs exact negatives generation by generation.",
+         "property-based testing: metamorphic relation max f == min -f"),
+ "C13": ("Exploration: algebraic laws of the seven variable types over generated definitions x adversarial candidate values (boundaries, 1 ulp outside, +-inf, huge, numpy scalars, ties).",
+         "property-based testing: algebraic laws (member, fixed point, idempotence, decode consistency)"),
+ "C14": ("Exploration: generated variable lists of any mix/order and positions; consistency laws between a task and stand-alone variables built from the same declarations.",
+         "property-based testing: consistency laws against stand-alone variables"),
+ "C15": ("Exploration: generated runs whose per-cycle population is deep-snapshotted by the harness and compared with the returned history; trend utilities compared with a direct direction-aware ranking for generated ranks and iteration lists.",
+         "property-based testing: history vs independent per-cycle snapshots; reference ranking for utilities"),
+ "C16": ("Exploration with an exhaustively enumerated core: every population of size <= 5 (quick) / 6 (thorough) over a 7-letter cost alphabet with ties, signed zeros and infinities x every n x both directions (exhaustive: true for that bound), plus random large populations; validity predicates.",
+         "exhaustive small-domain enumeration + property-based testing with validity predicates"),
+ "C17": ("Exploration: generated long runs of the optimizers classified structurally elitist (committed table), min and max; monotonicity of the best cost per generation.",
+         "property-based testing: monotonicity invariant over generated runs"),
+ "C18": ("Exploration: per optimizer class, generated valid and mutated parameter dictionaries; construct/refuse/equality laws and exact run equivalence between constructor-configured and set_config_parameters-configured instances, including instances that already had another configuration.",
+         "property-based testing: API laws + differential run equivalence"),
+ "C19": ("Exploration with an exhaustively enumerated core: ParameterGrid laws on every grid of <= 2 (quick) / 3 (thorough) sub-grids over 3 keys x 1..3 values against a reference product (exhaustive: true for that bound); HyperTuner.execute/resolve driven with a scripted optimizer and Hypothesis-drawn score tables against a call-log and mean-optimality oracle.",
+         "exhaustive enumeration (ParameterGrid) + model-based testing with a scripted optimizer"),
+ "C20": ("Exploration with an enumerated core: every (n, m) in 1..3 x 1..3 x every modes shape once, plus Hypothesis-drawn cases (mode values, invalid strings, trials, exports) on scripted logging optimizers; reference broadcast, call-log multiset, table shape and file layout oracles.",
+         "model-based testing with scripted optimizers and a reference broadcast"),
+}
+
 manifest = {
     "version": 1,
     "setup_cmd": ("/venv/bin/python -c 'import hypothesis' 2>/dev/null || /venv/bin/pip install --no-index "
@@ -44,7 +88,7 @@ for pid in ALL:
     except ModuleNotFoundError:
         manifest["not_applicable"].append({"property_id": pid, "reason": "check not built yet (planned in DESIGN.md section 3)"})
         continue
-    entry = getattr(mod, "MANIFEST_ENTRY", {})
+    entry = {"text": ENTRIES[pid][0], "technique": ENTRIES[pid][1]} if pid in ENTRIES else {}
     manifest["engines"][0]["serves_properties"].append(pid)
     manifest["checks"].append({
         "property_id": pid,
@@ -55,10 +99,11 @@ for pid in ALL:
         "engine": "hypothesis-pbt",
         "level_claimed": {
             "category": getattr(mod, "LEVEL", "exploration"),
-            "text": entry.get("text", mod.RULE),
+            "text": entry.get("text", mod.RULE) + " Generation rule and non-trivial rule: see the evidence file's coverage.rule.",
             "design_ref": f"DESIGN.md section 3, {pid}",
         },
-        "level_note": entry.get("note", "; ".join(getattr(mod, "ASSUMPTIONS", []))),
+        "level_note": "Trusted base: the harness' own oracles and generators (harness/, checks/), NumPy, pydantic, Hypothesis. "
+                      "Assumptions: " + "; ".join(getattr(mod, "ASSUMPTIONS", [])) + ". Sampling never establishes absence.",
         "technique": entry.get("technique", "property-based testing (Hypothesis) against an explicit oracle"),
     })
 if not manifest["not_applicable"]:
